@@ -160,6 +160,7 @@ class Program:
         self.funcs = parse_mir(mir_text)
         self.repo = repo_dir
         self._src = {}
+        self._resolve_cache = {}
         self.closure_by_span = {}
         self.impl_info = {}       # span -> dict(trait, self_ty, generics)
         self.inherent = {}        # (TypeHead, rest) -> func name
@@ -305,6 +306,15 @@ class Program:
     # ------------------------------------------------------------------ resolution
     def resolve_fn(self, path, env=None, handwritten_only=False):
         """Path -> (Func, env') for crate functions, or None when the callee is external"""
+        ck = (path.text, handwritten_only)
+        if ck in self._resolve_cache:
+            r = self._resolve_cache[ck]
+            return None if r is None else (r[0], dict(r[1]))
+        r = self._resolve_fn(path, env, handwritten_only)
+        self._resolve_cache[ck] = r
+        return None if r is None else (r[0], dict(r[1]))
+
+    def _resolve_fn(self, path, env=None, handwritten_only=False):
         text = strip_generics(path.text)
         f = self.funcs.get(text)
         if f is not None and f.kind == "fn":
@@ -1285,8 +1295,31 @@ class Interp:
                         return ("goto", target)
                 return ("goto", t.otherwise)
             # symbolic: fork
+            from .stdmodel import ByteLen
+            if isinstance(v, ByteLen):
+                if all(c == 0 for c, _ in t.cases) and t.otherwise is not None:
+                    return ("goto", t.otherwise)
+                raise Unsupported("switchInt on a byte length of symbolic text")
             if isinstance(v, Union):
-                raise Unsupported("switchInt on union")
+                paths = []
+                for g, x in v.alts:
+                    if not self.feasible(st.pc, g):
+                        continue
+                    if isinstance(x, bool):
+                        x = int(x)
+                    if isinstance(x, ByteLen):
+                        if all(c == 0 for c, _ in t.cases) and t.otherwise is not None:
+                            paths.append((st.fork(b_simpl(g)), t.otherwise))
+                            continue
+                        raise Unsupported("switchInt on a byte length of symbolic text")
+                    if not isinstance(x, int):
+                        raise Unsupported("switchInt on union alternative %r" % (x,))
+                    tgt = t.otherwise
+                    for c, target in t.cases:
+                        if c == x:
+                            tgt = target
+                    paths.append((st.fork(b_simpl(g)), tgt))
+                return ("paths", paths)
             paths = []
             nots = []
             for c, target in t.cases:
